@@ -45,6 +45,9 @@ def battery(rng, quick):
             lines += ["putfile %s %s" % (hx(f), hx(content) if content else "-"), "read 1 %s %s" % (ft, hx(f))]
         lines += ["putfile %s %s" % (hx("bad%d.bas" % k), hx(content) if content else "-"), base, "readbasis 0 " + hx("bad%d.bas" % k)]
     jobs.append(("malformed", lines))
+    # 2b. the same diagnostics in a second library session of the process (QSexactClear / QSexactStart in between)
+    jobs.append(("second-session", [base, "solve 0 dual", "restart", base, "read 1 LP " + hx("missing_here.lp"), "readbasis 0 " + hx("/nonexistent_dir_qsx/b.bas"),
+                                    "chgcoef 0 99 0 1", "solve 0 dual", "restart", base, "write 0 MPS " + hx("/nonexistent_dir_qsx/a.mps"), "delrow 0 17"]))
     # 3. rejected arguments in several lifecycle states
     lp3 = gen.LP("min", [[F(-1), F(0), gen.INF], [F(-1), F(0), gen.INF], [F(0), gen.NINF, gen.INF]],
                  [["L", F(4), F(0), [(0, F(1)), (1, F(2))]], ["R", F(1), F(2), [(0, F(3)), (1, F(1)), (2, F(1))]], ["E", F(0), F(0), [(2, F(1))]]])
